@@ -84,6 +84,10 @@ def csys(cfg, ids=None):
         es = [ElementalSystem(ids[0] if ids else 0, mb.get_pauli_basis())]
     elif cfg == "Q1h":
         es = [ElementalSystem(ids[0] if ids else 0, mb.get_normalized_hermitian_basis())]
+    elif cfg == "Q1x":
+        # orthonormal Hermitian basis whose FIRST element is not the identity but has a constant diagonal: (X, I, Y, Z)/sqrt2
+        P = [np.asarray(b.toarray() if hasattr(b, "toarray") else b) for b in mb.get_normalized_pauli_basis()]
+        es = [ElementalSystem(ids[0] if ids else 0, mb.MatrixBasis([P[1], P[0], P[2], P[3]]))]
     else:
         kinds = {"Q1": "Q", "T1": "T", "Q2": "QQ", "QT": "QT", "TQ": "TQ", "Q3": "QQQ", "T2": "TT", "Q4": "QQQQ"}[cfg]
         names = ids or list(range(len(kinds)))
@@ -107,7 +111,7 @@ def _warm_sibling(cfg, ids):
     from quara.objects.composite_system import CompositeSystem
     from quara.objects.elemental_system import ElementalSystem
     from quara.objects import matrix_basis as mb
-    dims = {"Q1": [2], "Q1u": [2], "Q1h": [2], "T1": [3], "Q2": [2, 2], "QT": [2, 3], "TQ": [3, 2]}.get(cfg)
+    dims = {"Q1": [2], "Q1u": [2], "Q1h": [2], "Q1x": [2], "T1": [3], "Q2": [2, 2], "QT": [2, 3], "TQ": [3, 2]}.get(cfg)
     if dims is None or os.environ.get("SYMQ_NO_SIBLING"):
         return
     import numpy as _np
